@@ -422,7 +422,7 @@ func tokenDecls(s *wl.Spec) string {
 func init() {
 	Register(&Checker{
 		ID: "C12", Level: "exploration", Engine: "A",
-		Rule: "even cases: usable grammars (all families) that must be processed under every map-order schedule and variant; odd cases: a usable base grammar with ONE injected defect (undefined symbol, %type'd nonterminal without rules, self-/mutually recursive unproductive nonterminal, unreachable unproductive one, unproductive start symbol, unproductive next to nullable ones, deep chain) at an early/late/random position. Oracle: reference productivity/definedness. distinct_nontrivial = distinct grammars.",
+		Rule:     "even cases: usable grammars (all families) that must be processed under every map-order schedule and variant; odd cases: a usable base grammar with ONE injected defect (undefined symbol, %type'd nonterminal without rules, self-/mutually recursive unproductive nonterminal, unreachable unproductive one, unproductive start symbol, unproductive next to nullable ones, deep chain) at an early/late/random position. Oracle: reference productivity/definedness. distinct_nontrivial = distinct grammars.",
 		NumCases: func(ctx *Ctx) int { return fixedCases(ctx, 1600, 60000) },
 		Gen:      genC12, Exec: execC12,
 		Probes:    []string{"usable_runs", "unusable_runs", "refused_with_diagnostic"},
@@ -431,7 +431,7 @@ func init() {
 	})
 	Register(&Checker{
 		ID: "C11", Level: "exploration", Engine: "A+B",
-		Rule: "case = 8 token-declaration mixes (explicit numbers small/large/negative/next to literal codes, character literals declared or only used, tagged/untagged, declared by %token, several per %token line, only by a precedence line, re-declared to add a number) x K map-order schedules: (a) the symbol table of every run is checked against the numbering rules; (b) the files generated under schedule 0 in one Go variant and in TypeScript are compiled / loaded and probed: every named token's constant, translate(code) for every token code, -1 and a band of other integers. distinct_nontrivial = distinct token declaration sets.",
+		Rule:     "case = 8 token-declaration mixes (explicit numbers small/large/negative/next to literal codes, character literals declared or only used, tagged/untagged, declared by %token, several per %token line, only by a precedence line, re-declared to add a number) x K map-order schedules: (a) the symbol table of every run is checked against the numbering rules; (b) the files generated under schedule 0 in one Go variant and in TypeScript are compiled / loaded and probed: every named token's constant, translate(code) for every token code, -1 and a band of other integers. distinct_nontrivial = distinct token declaration sets.",
 		NumCases: func(ctx *Ctx) int { return fixedCases(ctx, 96, 6000) },
 		Gen:      genC11, Exec: execC11,
 		Probes: []string{"probe_auto_numbered_token", "probe_literals_and_explicit_numbers", "files_checked", "translate_probes", "symbol_tables_checked"},
